@@ -94,4 +94,77 @@ ListBlocks(cfg, c, nl) ==
   ELSE LET fs == FormsOf(cfg, c)
            blk(j) == (IF j = 1 THEN nl ELSE <<>>) \o T_AT \o CmdOf(cfg, c).name \o ListSuffix(fs[j]) \o nl
        IN [j \in 1..Len(fs) |-> blk(j)] \o ListBlocks(cfg, c + 1, nl)
+
+(***************************************************************************)
+(* Declarative meaning of one argument text (C04, C05), written without    *)
+(* the character loops of CatImpl: grammar by quantification, value by the *)
+(* digit-sequence order, effect on the variable as a function of the       *)
+(* whole field.  MC_Fn compares DecodeVar (the fold the machine uses) with *)
+(* these definitions over exhaustively enumerated texts.                   *)
+(***************************************************************************)
+\* the field starting at 0-based position p of the C string t: up to the first comma or the end
+FieldEnd(t, p) == LET cs == CStr(t)
+                      commas == {i \in (p + 1)..Len(cs) : cs[i] = COMMA}
+                  IN IF commas = {} THEN Len(cs) + 1 ELSE CHOOSE i \in commas : \A j \in commas : i <= j
+FieldOf(t, p) == LET cs == CStr(t) IN IF p >= Len(cs) THEN <<>> ELSE SubSeq(cs, p + 1, FieldEnd(t, p) - 1)
+FieldTerm(t, p) == IF FieldEnd(t, p) <= Len(CStr(t)) THEN 1 ELSE 0
+
+AllDec(f) == \A i \in 1..Len(f) : IsDec(f[i])
+DeclIntOk(f) == Len(f) >= 1 /\ LET body == IF f[1] \in {CH_PLUS, CH_MINUS} THEN Tail(f) ELSE f IN Len(body) >= 1 /\ AllDec(body)
+DeclIntNeg(f) == f[1] = CH_MINUS
+DeclIntMag(f) == StripZeros(IF f[1] \in {CH_PLUS, CH_MINUS} THEN Tail(f) ELSE f)
+DeclUIntOk(f) == Len(f) >= 1 /\ AllDec(f)
+DeclHexOk(f) == Len(f) >= 3 /\ f[1] = CH_0 /\ Up(f[2]) = CH_X /\ \A i \in 3..Len(f) : IsHexUp(Up(f[i]))
+DeclHexMag(f) == StripHexZeros(MapUp(SubSeq(f, 3, Len(f))))
+
+\* numeric variable: [ok, val] - accepted?, canonical stored value
+DeclNum(var, f, old) ==
+  IF var.type = VT_INT THEN
+     IF ~DeclIntOk(f) \/ ~DigitsLE(DeclIntMag(f), D_I64MAX) THEN [ok |-> FALSE, val |-> old]
+     ELSE IF var.acc = ACC_RO THEN [ok |-> TRUE, val |-> old]
+     ELSE IF var.size \notin {1, 2, 4} THEN [ok |-> FALSE, val |-> old]
+     ELSE IF ~DigitsLE(DeclIntMag(f), IF DeclIntNeg(f) THEN IntNegBound(var.size) ELSE IntPosBound(var.size)) THEN [ok |-> FALSE, val |-> old]
+     ELSE [ok |-> TRUE, val |-> (IF DeclIntNeg(f) /\ DeclIntMag(f) # <<CH_0>> THEN <<CH_MINUS>> ELSE <<>>) \o DeclIntMag(f)]
+  ELSE IF var.type = VT_UINT THEN
+     IF ~DeclUIntOk(f) \/ ~DigitsLE(StripZeros(f), D_U64MAX) THEN [ok |-> FALSE, val |-> old]
+     ELSE IF var.acc = ACC_RO THEN [ok |-> TRUE, val |-> old]
+     ELSE IF var.size \notin {1, 2, 4} \/ ~DigitsLE(StripZeros(f), UIntBound(var.size)) THEN [ok |-> FALSE, val |-> old]
+     ELSE [ok |-> TRUE, val |-> StripZeros(f)]
+  ELSE
+     IF ~DeclHexOk(f) \/ Len(DeclHexMag(f)) > 16 THEN [ok |-> FALSE, val |-> old]
+     ELSE IF var.acc = ACC_RO THEN [ok |-> TRUE, val |-> old]
+     ELSE IF var.size \notin {1, 2, 4} \/ Len(DeclHexMag(f)) > 2 * var.size THEN [ok |-> FALSE, val |-> old]
+     ELSE [ok |-> TRUE, val |-> PadHex(DeclHexMag(f), 2 * var.size)]
+
+\* hex buffer: accepted iff even, non-empty, all hex digits, at most size bytes; then the first n bytes are the decoded ones
+DeclBufHex(var, f, old) ==
+  LET n == Len(f) \div 2
+      ok == Len(f) >= 2 /\ Len(f) % 2 = 0 /\ (\A i \in 1..Len(f) : IsHexUp(Up(f[i]))) /\ n <= var.size
+      byte(i) == 16 * HexVal(Up(f[2 * i - 1])) + HexVal(Up(f[2 * i]))
+  IN [ok |-> ok, n |-> n, val |-> IF ok /\ var.acc # ACC_RO THEN [i \in 1..var.size |-> IF i <= n THEN byte(i) ELSE old[i]] ELSE old]
+
+\* string: "body" with escapes; decoded = the characters the body denotes
+RECURSIVE DeclUnescape(_)
+DeclUnescape(b) == IF b = <<>> THEN [ok |-> TRUE, d |-> <<>>]
+                   ELSE IF b[1] = BSLASH THEN
+                        IF Len(b) < 2 \/ b[2] \notin {BSLASH, QUOTE, CH_n} THEN [ok |-> FALSE, d |-> <<>>]
+                        ELSE LET r == DeclUnescape(SubSeq(b, 3, Len(b))) IN
+                             [ok |-> r.ok, d |-> <<(IF b[2] = CH_n THEN LF ELSE b[2])>> \o r.d]
+                   ELSE IF b[1] = QUOTE THEN [ok |-> FALSE, d |-> <<>>]
+                   ELSE LET r == DeclUnescape(Tail(b)) IN [ok |-> r.ok, d |-> <<b[1]>> \o r.d]
+DeclString(var, f, old) ==
+  LET shaped == Len(f) >= 2 /\ f[1] = QUOTE /\ f[Len(f)] = QUOTE
+      u == IF shaped THEN DeclUnescape(SubSeq(f, 2, Len(f) - 1)) ELSE [ok |-> FALSE, d |-> <<>>]
+      \* a closing quote must not itself be escaped: the body must unescape completely
+      ok == shaped /\ u.ok /\ Len(u.d) <= var.size - 1
+  IN [ok |-> ok, n |-> Len(u.d),
+      val |-> IF ok /\ var.acc # ACC_RO THEN [i \in 1..var.size |-> IF i <= Len(u.d) THEN u.d[i] ELSE IF i = Len(u.d) + 1 THEN NUL ELSE old[i]] ELSE old]
+
+\* READ text of one variable, declaratively (masking of write-only variables included)
+DeclReadText(var, val) ==
+  IF var.acc = ACC_WO THEN
+     CASE var.type \in {VT_INT, VT_UINT} -> <<CH_0>> [] var.type = VT_HEX -> <<CH_0, 120>> \o Zeros(2 * var.size)
+       [] var.type = VT_BUFHEX -> Zeros(2 * var.size) [] OTHER -> <<QUOTE, QUOTE>>
+  ELSE CASE var.type \in {VT_INT, VT_UINT} -> val [] var.type = VT_HEX -> <<CH_0, 120>> \o val
+         [] var.type = VT_BUFHEX -> HexOfBytes(val) [] OTHER -> <<QUOTE>> \o EscapeStr(CStr(val)) \o <<QUOTE>>
 =============================================================================
